@@ -232,7 +232,7 @@ def merge(results: list) -> dict:
         for k, v in r.get("info", {}).items():
             if isinstance(v, list):
                 cur = tot["info"].setdefault(k, [])
-                cap = 200000 if k == "digests" else 400
+                cap = 200000 if k == "digests" else 5000
                 for x in v:
                     if len(cur) < cap and (k == "digests" or x not in cur):
                         cur.append(x)
